@@ -5,6 +5,11 @@ package yubiagent
 // Contracts for the verification framework in /verif (comment-only file,
 // compiled only with -tags verif; see /verif/DESIGN.md).
 
+//@ import shimagent "github.com/theparanoids/ysshra/agent/shimagent"
+
+//@ # the embedded shim agent of a server object is set by its constructor only
+//@ immutable server.ShimAgent
+
 //@ # ---------------------------------------------------------------- C12: framed I/O
 //@ ghost func be32(b bytes, i int) int = b[i] * 16777216 + b[i+1] * 65536 + b[i+2] * 256 + b[i+3]
 
@@ -70,7 +75,8 @@ package yubiagent
 
 //@ func ServeAgent(agent, c)
 //@   requires agent != nil && c != nil
-//@   requires typeof(agent) == *server ==> pl(agent) != 0
+//@   requires typeof(agent) == *server ==> (pl(agent) != 0 &&
+//@     (typeof(agent.(*server).ShimAgent) == *shimagent.Server ==> pl(agent.(*server).ShimAgent) != 0))
 //@   modifies all
 //@   ensures [clean-eof] result == nil ==> (reads() >= 1 && ret(yubiagent.read, calls(yubiagent.read) - 1, 1) == io.EOF)
 //@   ensures [one-response-per-request] result == nil ==> responses() == reads() - 1
